@@ -123,6 +123,9 @@ func runAll(todo []*propertySpec, tier, repo, evdir, knownPath, onlyRule string,
 	}
 	fmt.Printf("loaded %s: %d packages, %d module functions, %d call-graph nodes, GOOS=%v in %.1fs\n",
 		repo, len(ctxs[0].SSAPkgs), len(ctxs[0].ModFuncs), len(ctxs[0].CG.Nodes), goosList, time.Since(t0).Seconds())
+	if ctxs[0].canon != nil {
+		fmt.Printf("%s\n", describeCanon(ctxs[0].canon))
+	}
 	for _, prop := range todo {
 		if c := runProperty(prop, ctxs, known, tier, evdir, onlyRule, explain, noEv, seed, t0); c > code {
 			code = c
